@@ -8,7 +8,9 @@
 (*   bin    : "crustabri" | "iccma23"   (the ICCMA'23 wrapper)             *)
 (*   file   : "good" | "missing" | "badheader" | "outofrange" |            *)
 (*            "afterblank" | "undeclared" | "argafteratt" | "wrongformat"  *)
-(*   pclass : "valid" | "nohyphen" | "badquery" | "badsem" | "absent"      *)
+(*   pclass : "valid" | "nohyphen" | "badquery" | "badsem" | "trailing"    *)
+(*            | "trailinghyphen" | "padded" | "absent"  (anything but one  *)
+(*            of the 21 problems, up to case, is not a problem)             *)
 (*   kind   : "SE" | "DC" | "DS" (of a valid problem)                      *)
 (*   argc   : "absent" | "valid" | "toobig" | "zero" | "negative" | "nan"  *)
 (*   enc    : "unset" | "aux_var" | "exp" | "hybrid" | "invalid"           *)
